@@ -22,6 +22,10 @@ CHECKS = {
             "Exploration: names from ASCII / digit / Greek / arbitrary-braced families (0..40 distinct, beyond the inline capacity 16), var_names compared with Rust's sort of the distinct names, binding observed symbolically (Var(i) must sit at every occurrence of the i-th name), every slice length 0..n+3 on all evaluation entry points, derived expressions' variable lists, shipped float and value tables.",
             "Trusted: Rust's str ordering as the reference order; reference tree.",
             "DESIGN.md 3/C04"),
+    "C05": ("runtime monitor: forward-mode dual numbers on the reference tree as oracle, exact rational arithmetic + guarded f64 comparison",
+            "Exploration: derivatives obtained through four code paths (flat, deep, converted both ways) and a second time for order 2 are evaluated at random points and compared with dual-number derivatives of the reference tree: equality over exact rationals, 1e-9 relative (plus 1e-10 of the largest intermediate magnitude) over f64 at guarded, well-conditioned interior points. Every derivative rule must have been exercised or the run is inconclusive; operators without a rule over a variable must give Err.",
+            "Trusted: the dual-number rules in num.rs (the mathematical derivative table written independently); guards discard ~40 % of sampled points.",
+            "DESIGN.md 3/C05"),
     "C07": ("runtime monitor: exhaustive single-point damage of rendered well-formed texts, all parser entry points must return Err",
             "Fault-style exploration: for every generated well-formed text ALL single-point damages of the listed kinds are applied (each parenthesis deleted; '(' , ')' and an illegal character inserted at every character position outside braces; every binary operator appended; an extra operand placed left and right of every primary operand token) and every parser entry point (term-algebra tables, shipped float table, shipped value table) must reject. ~10^6 damaged variants in the quick tier.",
             "Trusted: the renderer produces well-formed texts (originals rejected by all parsers are skipped and counted); the illegal-character set is disjoint from every table in use; tab/newline are not treated as illegal.",
